@@ -50,7 +50,8 @@ func inRange(k []byte, sr seekRange) bool {
 	}
 	c := bytes.Compare(k[len(sr.pfx):], sr.start)
 	if sr.bw {
-		return c <= 0
+		// backwards the scan starts at the last key having prefix‖start as a prefix
+		return c <= 0 || bytes.HasPrefix(k[len(sr.pfx):], sr.start)
 	}
 	return c >= 0
 }
